@@ -102,7 +102,7 @@ func planC03(p *propDef, tier string, seed uint64, n int) []*Case {
 	parallel(nScen, 16, func(i int) {
 		s := mix(seed, uint64(1000+i))
 		t := scen.NewTape(s ^ 0xc03)
-		sc := scen.GenCrawl(t, scen.CrawlOpts{Prop: "C03", MinSeeds: 2, MaxSeeds: 4, Small: true, NoBadSeeds: true, Faults: i%2 == 1, RateLimit: -1, Hops: true})
+		sc := scen.GenCrawl(t, scen.CrawlOpts{Prop: "C03", MinSeeds: 2, MaxSeeds: 4, Small: true, NoBadSeeds: true, Faults: i%2 == 1, RateLimit: -1, Hops: true, Rotation: i%4 == 3})
 		if i%3 != 1 && sc.Cfg.MaxHops == 0 {
 			sc.Cfg.MaxHops = 1 // outlinks are forwarded between stages in most scenarios
 		}
@@ -265,7 +265,7 @@ func planC04(p *propDef, tier string, seed uint64, n int) []*Case {
 	parallel(nScen, 16, func(i int) {
 		s := mix(seed, uint64(4000+i))
 		t := scen.NewTape(s ^ 0xc04)
-		sc := scen.GenCrawl(t, scen.CrawlOpts{Prop: "C04", MinSeeds: 3, MaxSeeds: 8, Small: true, Hops: true, RateLimit: -1})
+		sc := scen.GenCrawl(t, scen.CrawlOpts{Prop: "C04", MinSeeds: 3, MaxSeeds: 8, Small: true, Hops: true, RateLimit: -1, Rotation: i%3 == 1})
 		sc.Cfg.Proxy = false
 		sc.Cfg.AsyncWARC = false
 		sc.Cfg.TempInWarcs = i%3 == 2 // unusual but legal: spooled bodies go to the directory the WARC files are written to
